@@ -227,6 +227,47 @@ def recheck(slot, props, ids):
         print(r['id'], r['file'], r['line'], r['op'], r['status'], r.get('detected_by'), (r.get('first') or '')[:160], flush=True)
 
 
+def recheck_all(workers):
+    """every mutant whose newest record is UNDETECTED is run against all 20 quick checks (those not yet tried first)"""
+    muts = {json.loads(l)['id']: json.loads(l) for l in open(os.path.join(OUT, 'mutants.jsonl'))}
+    latest, tried = {}, {}
+    for l in open(os.path.join(OUT, 'results.jsonl')):
+        r = json.loads(l)
+        if r['id'] in latest and latest[r['id']]['status'] == 'detected':
+            continue
+        latest[r['id']] = r
+        tried.setdefault(r['id'], set()).update(r.get('checks_run', []))
+    todo = [i for i, r in sorted(latest.items()) if r['status'] == 'UNDETECTED']
+    allp = ['C%02d' % k for k in range(1, 21)]
+    print('recheck-all todo', len(todo), flush=True)
+    import threading
+    lock = threading.Lock()
+    base = int(os.environ.get('MUT_SLOT_BASE', '0'))
+    slots = list(range(base, base + workers))
+
+    def work(i):
+        with lock:
+            w = slots.pop()
+        rest = [p for p in allp if p not in tried.get(i, set())]
+        m = dict(muts[i], props=' '.join(rest))
+        t0 = time.time()
+        try:
+            r = evaluate(m, w)
+            r['secs'] = round(time.time() - t0, 1)
+            r['recheck'] = 'all'
+            r['checks_run'] = sorted(set(r.get('checks_run', [])) | tried.get(i, set()))
+        except Exception as e:  # noqa
+            r = dict(m, status='error', error=str(e)[:200])
+        with lock:
+            slots.append(w)
+            with open(os.path.join(OUT, 'results.jsonl'), 'a') as f:
+                f.write(json.dumps(r) + '\n')
+            print(r['id'], r['file'], r['line'], r['op'], r['status'], r.get('detected_by'), flush=True)
+
+    with ThreadPoolExecutor(max_workers=workers) as ex:
+        list(ex.map(work, todo))
+
+
 def report():
     rs = {}
     for l in open(os.path.join(OUT, 'results.jsonl')):
@@ -253,6 +294,8 @@ if __name__ == '__main__':
         a = int(sys.argv[3]) if len(sys.argv) > 3 else 0
         b = int(sys.argv[4]) if len(sys.argv) > 4 else 10 ** 9
         run(w, a, b)
+    elif sys.argv[1] == 'recheck-all':
+        recheck_all(int(sys.argv[2]))
     elif sys.argv[1] == 'recheck':
         recheck(int(sys.argv[2]), sys.argv[3], [int(x) for x in sys.argv[4:]])
     else:
